@@ -301,10 +301,11 @@ where `old` is the essence stored on the object as LAST HANDLED (`none`: nothing
 handlers at all), `new` the essence of the event's body and `seen` the essence of the previously
 processed event. Essences are abstracted to `Nat`. -/
 structure Ev where
-  recv : Int := 0               -- loop time at which the processing cycle of the event began (`process_resource_event`);
-                                -- not read by the code: only the statements about "when the change was received" use it
-  t : Int                       -- loop time at which the event reaches `process_spawning_cause` (after indexing and
-                                -- the `@kopf.on.event` handlers of the cycle): the instant a reset is stamped with
+  recv : Int := 0               -- loop time right after `_detect_causes` in `process_resource_causes`, before any handler
+                                -- of the cycle runs: the FIRST instant a reset is stamped with (since f6dee42)
+  t : Int                       -- loop time at which the event reaches `process_spawning_cause` (after the
+                                -- `@kopf.on.event` handlers of the cycle): the SECOND stamp (`= recv` for a cycle that is
+                                -- cancelled in between, or when no time passes there)
   ess : Nat                     -- essence of the event's body (`new`)
   lastHandled : Option Nat      -- last-handled essence the body carries (`old`)
   deriving DecidableEq, Repr
@@ -321,9 +322,21 @@ def resetCond (a : ResetAtoms) : Bool := a.diffLastHandled || a.diffSeen
 def resetsIdle (lastHandled seen : Option Nat) (new : Nat) : Bool :=
   resetCond { diffLastHandled := lastHandled != some new, diffSeen := seen.getD new != new }
 
-/-- one event: (`idle_reset_time` as read at `t`, `last_seen_essence`) -/
+/-- the two places that write `idle_reset_time` under the reset condition -/
+inductive StampSite where
+  | afterDetect      -- `process_resource_causes`, right after `_detect_causes` (f6dee42)
+  | spawningCause    -- `process_spawning_cause`
+  deriving DecidableEq, Repr
+
+def stampSites : List StampSite := [.afterDetect, .spawningCause]
+
+/-- a stamp with loop time `x` as far as it is visible to a read at `t` (stamps never go back) -/
+def stamp (reset : Bool) (t x acc : Int) : Int := if reset && decide (x ≤ t) && decide (acc ≤ x) then x else acc
+
+/-- one event: (`idle_reset_time` as read at `t`, `last_seen_essence`); both stamps of a resetting event -/
 def viewStep (t : Int) (s : Int × Option Nat) (e : Ev) : Int × Option Nat :=
-  (if resetsIdle e.lastHandled s.2 e.ess && decide (e.t ≤ t) && decide (s.1 ≤ e.t) then e.t else s.1, some e.ess)
+  let r := resetsIdle e.lastHandled s.2 e.ess
+  (stamp r t e.t (stamp r t e.recv s.1), some e.ess)
 
 /-- `memory.idle_reset_time` as read at `t`: the creation time of the memory, or the time of the latest
     resetting event processed so far (events of the same instant count as processed). -/
@@ -353,15 +366,10 @@ def essentialEvs : List Ev → List Ev
   | [] => []
   | e :: es => (if e.lastHandled = some e.ess then [] else [e]) ++ essentialEvsAfter e.ess es
 
-/-- The idle clause counted from the RECEIPT of the change (the start of its processing cycle) instead
-    of from the instant the cycle reaches `process_spawning_cause`. -/
+/-- The idle clause counted from the RECEIPT of the change (`recv`: detected, no handler of the cycle has run
+    yet) instead of from the instant the cycle reaches `process_spawning_cause`. -/
 def FullIdleRecv (idle : Int) (evs : List Ev) (its : List Iter) : Prop :=
   ∀ it ∈ its, it.res.isSome = true → ∀ e ∈ essentialEvs evs, e.recv ≤ it.start → idle ≤ it.start - e.recv
-
-/-- No run starts while an essential change is being processed but has not yet reached
-    `process_spawning_cause` (the `@kopf.on.event` handlers of its cycle are still running). -/
-def NoRunDuringProcessing (evs : List Ev) (its : List Iter) : Prop :=
-  ∀ it ∈ its, it.res.isSome = true → ∀ e ∈ essentialEvs evs, ¬ (e.recv ≤ it.start ∧ it.start < e.t)
 
 /-- The property's idle clause in full: no run starts within the idle time after an essential change. -/
 def FullIdle (idle : Int) (evs : List Ev) (its : List Iter) : Prop :=
